@@ -1,2 +1,7 @@
+import Properties.C01
+import Properties.C02
 import Properties.C04
+import Properties.C08
+import Properties.C10
 import Properties.C14
+import Properties.C17
